@@ -17,7 +17,13 @@ const (
 	Drop                   // do not forward; cut the stream
 	Truncate               // forward only part of the encoding, then cut
 	CutAfter               // forward, then cut the stream
+	Impersonate            // (renter->host message) do not forward: answer the renter in the host's place with the relay's Answer function, then end the exchange
 )
+
+// An Answerer fabricates the host's next message after a renter message the
+// hook chose to Impersonate on (a Byzantine host that does not run the honest
+// server for this step). A nil result cuts the stream.
+type Answerer func(streamNo int, rpc types.Specifier, step int, renterMsg rhp4.Object) rhp4.Object
 
 // A Step is one typed message of an RPC exchange.
 type Step struct {
@@ -133,7 +139,10 @@ func (c *capture) Write(p []byte) (int, error) { c.b = append(c.b, p...); return
 // TypedRelay returns an Interposer that decodes every message of the exchange,
 // hands it to hook and re-encodes it. Error responses of the host are forwarded
 // as they are.
-func TypedRelay(hook Hook) Interposer {
+func TypedRelay(hook Hook) Interposer { return TypedRelayAnswering(hook, nil) }
+
+// TypedRelayAnswering is TypedRelay with an Answerer for Impersonate actions.
+func TypedRelayAnswering(hook Hook, answer Answerer) Interposer {
 	return func(streamNo int, renter, host *Conn) {
 		defer renter.Close()
 		defer host.Close()
@@ -187,6 +196,17 @@ func TypedRelay(hook Hook) Interposer {
 				act = hook(streamNo, id, i, st, o, nil)
 			}
 			if act == Drop {
+				cut()
+				return
+			}
+			if act == Impersonate {
+				if answer != nil && st.FromRenter {
+					if a := answer(streamNo, id, i, o); a != nil {
+						rhp4.WriteResponse(renter, a)
+						host.Cut()
+						return
+					}
+				}
 				cut()
 				return
 			}
